@@ -29,6 +29,7 @@ fn gens(tier: Tier) -> Vec<Gen> {
         Gen { name: "allsplits", count: allsplits_count(tier), exhaustive: true, run: run_allsplits },
         Gen { name: "splitpoints", count: splitpoints_count(), exhaustive: true, run: run_splitpoints },
         Gen { name: "random", count: tier.pick(4_000, 300_000), exhaustive: false, run: run_random },
+        Gen { name: "two-alive", count: tier.pick(600, 20_000), exhaustive: false, run: run_two_alive },
         Gen { name: "large", count: tier.pick(160, 6_000), exhaustive: false, run: run_large },
     ]
 }
@@ -165,6 +166,7 @@ pub fn run_case(ctx: &mut Ctx, c: &Case) {
         ReadPlan::TextReader { .. } => ctx.count("plan_text_reader", 1),
         ReadPlan::Json(_) => ctx.count("plan_json", 1),
         ReadPlan::PrefixThen { .. } => ctx.count("plan_prefix_then_helper", 1),
+        ReadPlan::StdAdaptor { .. } => ctx.count("plan_std_adaptor", 1),
     }
     if nsteps == built.wire.len() && nsteps > 1 {
         ctx.count("bytewise_cases", 1);
@@ -395,4 +397,70 @@ fn run_large(ctx: &mut Ctx, rng: &mut Rng, index: u64) {
     };
     let c = Case { status_line: "HTTP/1.1 200 OK", framing, payload, sizes, styles, garbage: b"GARBAGE".to_vec(), seg, head_bytewise: None, plan, extra_reads: 2 };
     run_case(ctx, &c);
+}
+
+/// two (or three) responses of the same thread alive at once, read in an interleaved fashion:
+/// each delivers exactly its own payload
+fn run_two_alive(ctx: &mut Ctx, rng: &mut Rng, _index: u64) {
+    use std::io::Read;
+    let n = if rng.chance(1, 4) { 3 } else { 2 };
+    let mut wires = Vec::new();
+    let mut payloads = Vec::new();
+    for _ in 0..n {
+        let framing = *rng.pick(&Framing::ALL);
+        let len = respgen::payload_len(rng, if crate::framework::small_mode() { 300 } else { 20_000 });
+        let payload = respgen::payload_bytes(rng, len);
+        let sizes = if framing == Framing::Chunked { respgen::random_chunking(rng, len) } else { vec![] };
+        let b = build_response("HTTP/1.1 200 OK", &[], framing, &payload, &sizes, &respgen::random_styles(rng), b"");
+        let seg = respgen::random_segmentation(rng, b.wire.len(), &[b.head_len]);
+        wires.push(seg.apply(&b.wire));
+        payloads.push(payload);
+    }
+    let scripts = wires.clone();
+    let _world = World::install(move |_, idx, _| crate::transport::Answer::Script(scripts.get(idx).cloned().unwrap_or_default(), crate::transport::WriteFaults::default()));
+    let via_session = rng.bool();
+    let sess = attohttpc::Session::new();
+    let mut resps = Vec::new();
+    for i in 0..n {
+        let url = format!("http://origin.test/c01-{i}");
+        match if via_session { sess.get(&url).send() } else { attohttpc::get(&url).send() } {
+            Ok(r) => resps.push(r),
+            Err(e) => return ctx.violation("send-failed", format!("response {i} of {n} alive at once: {e:?}")),
+        }
+    }
+    let mut got: Vec<Vec<u8>> = vec![Vec::new(); n];
+    let mut done = vec![false; n];
+    let mut buf = vec![0u8; 70_000];
+    let mut guard = 0;
+    while done.iter().any(|d| !d) {
+        let i = rng.usize_below(n);
+        if done[i] {
+            continue;
+        }
+        let sz = *rng.pick(&[1usize, 7, 300, 4096, 70_000]);
+        match resps[i].read(&mut buf[..sz]) {
+            Ok(0) => done[i] = true,
+            Ok(k) => got[i].extend_from_slice(&buf[..k.min(sz)]),
+            Err(e) if e.kind() == std::io::ErrorKind::Interrupted => {}
+            Err(e) => return ctx.violation("read-error-on-wellformed:interleaved", format!("response {i} of {n} alive at once failed: {e}")),
+        }
+        guard += 1;
+        if guard > 3_000_000 {
+            return ctx.violation("no-progress", "interleaved reads do not end".to_owned());
+        }
+    }
+    ctx.count("responses_alive_at_once", n as u64);
+    for i in 0..n {
+        if got[i] != payloads[i] {
+            let whose = (0..n).find(|&j| j != i && !payloads[j].is_empty() && got[i].windows(payloads[j].len().min(16).max(1)).any(|w| w == &payloads[j][..payloads[j].len().min(16).max(1)]));
+            ctx.violation("body-mismatch:interleaved", format!("response {i} of {n} alive at once ({}): {} bytes delivered, {} sent{}", if via_session { "same Session" } else { "independent requests" }, got[i].len(), payloads[i].len(), whose.map(|j| format!("; it contains bytes of response {j}")).unwrap_or_default()));
+            return;
+        }
+    }
+    let mut key = Vec::new();
+    for p in &payloads {
+        key.extend_from_slice(&(p.len() as u64).to_le_bytes());
+        key.extend_from_slice(&p[..p.len().min(32)]);
+    }
+    ctx.nontrivial(&key);
 }
